@@ -114,13 +114,18 @@ class BatchBase(futures.FutureBase):
             # must not be entered a second time
             raise BatchingError("Batch is being flushed.")
         self._flushing = True
-        self._try_switch_active_batch()
         try:
-            self._flush()
-            self.set_value(None)
-        except BaseException as error:
-            if not self.is_computed():
-                self.set_error(error)
+            self._try_switch_active_batch()
+            try:
+                self._flush()
+                self.set_value(None)
+            except BaseException as error:
+                if not self.is_computed():
+                    self.set_error(error)
+        finally:
+            # (only while the body runs: a batch that was reset with reset_unsafe(), or whose
+            # _try_switch_active_batch() hook raised, can be computed again)
+            self._flushing = False
 
     def _computed(self):
         # The purpose of this overridden method is to ensure that
